@@ -248,6 +248,11 @@ func AuditProbe(c *vh.Case, nd *chainx.Node) {
 }
 
 func heavier(a, b *chainx.B) bool {
+	if a.Work == nil || b.Work == nil || b.Diff == nil {
+		// a block without a header-valid ancestry has no work: it can never be sufficiently heavier
+		// (such a block on the best chain is reported by its own oracle)
+		return false
+	}
 	// a.work > b.work + b.diff/5
 	th := new(big.Int).Add(b.Work, new(big.Int).Div(b.Diff, big.NewInt(5)))
 	return a.Work.Cmp(th) > 0
@@ -545,7 +550,7 @@ func RunTreeModes(r *vh.Run, name string, t *chainx.Tree, sched [][]int, modes [
 			c.Oracle("addblocks-panic", "AddBlocks/AddValidatedV2Blocks panicked on batch %v: %s", batch, LastPanic)
 			break
 		}
-		if lb := t.Blocks[batch[len(batch)-1]]; lb.Work != nil && t.AllValid(lb.ID) && lb.Work.Cmp(t.Blocks[beforeTip].Work) > 0 && !heavier(lb, t.Blocks[beforeTip]) {
+		if lb := t.Blocks[batch[len(batch)-1]]; lb.Work != nil && t.Blocks[beforeTip].Work != nil && t.AllValid(lb.ID) && lb.Work.Cmp(t.Blocks[beforeTip].Work) > 0 && !heavier(lb, t.Blocks[beforeTip]) {
 			nearTies++
 		}
 		afterTip, _ := t.Lookup(nd.CM.Tip().ID)
